@@ -84,7 +84,7 @@ pub fn use_ladder(lower: bool) -> Vec<(Program, Vec<V>)> {
     let (p1, p2, pprog) = if lower { ("p1", "p2", "pprog") } else { ("P1", "P2", "PPROG") };
     let v = |n: &str| Expr::Var(n.to_string());
     let pv = |n: &str| Pat::Var(n.to_string());
-    let nwrap = 16;
+    let nwrap = 18;
     let wrap = |k: usize, e: Expr, ctr: &mut usize| -> Expr {
         *ctr += 1;
         let (l, m) = (format!("L{}", *ctr * 2), format!("L{}", *ctr * 2 + 1));
@@ -110,7 +110,11 @@ pub fn use_ladder(lower: bool) -> Vec<(Program, Vec<V>)> {
             14 => Expr::Let(false, vec![(m.clone(), Expr::Lit(V::int(2))), (l.clone(), e)],
                 Box::new(Expr::Apply(Box::new(Expr::Lambda(vec![m.clone(), l.clone()], Pat::list(vec![pv("ZC")], Pat::Nil), Box::new(Expr::List(vec![v(&m), v(&l), v("ZC")])))), Box::new(Expr::List(vec![Expr::Lit(V::int(1))]))))),
             // ... and the same inside a function called with the constant
-            _ => Expr::Call("capf".into(), vec![Expr::Lit(V::int(2)), e, Expr::Lit(V::int(1))], None),
+            15 => Expr::Call("capf".into(), vec![Expr::Lit(V::int(2)), e, Expr::Lit(V::int(1))], None),
+            // a function whose whole parameter list is captured by name: what the call passes beyond the pattern (here
+            // through a &rest tail) is reachable through that name only
+            16 => Expr::Call("atall".into(), vec![Expr::Lit(V::int(1)), Expr::Lit(V::int(2))], Some(Box::new(Expr::List(vec![e])))),
+            _ => Expr::Call("atmore".into(), vec![Expr::Lit(V::int(1)), Expr::Lit(V::int(2))], Some(Box::new(Expr::List(vec![e])))),
         }
     };
     // binder around, construct inside: the bound name (not the expression) goes through the inner construct
@@ -131,6 +135,10 @@ pub fn use_ladder(lower: bool) -> Vec<(Program, Vec<V>)> {
         Helper::Defun { name: "fun2".into(), pat: Pat::list(vec![pv("B")], Pat::Nil), body: v("B"), inline: false },
         Helper::Defun { name: "inl3".into(), pat: Pat::list(vec![pv("C")], Pat::Nil), body: Expr::Call("fun2".into(), vec![v("C")], None), inline: true },
         Helper::Defun { name: "inl4".into(), pat: Pat::list(vec![pv("D"), pv("E")], Pat::Nil), body: Expr::If(Box::new(v("E")), Box::new(v("D")), Box::new(Expr::Lit(V::int(0)))), inline: true },
+        Helper::Defun { name: "atall".into(), pat: Pat::At("ALL".into(), Box::new(Pat::list(vec![pv("AA"), pv("AB")], Pat::Nil))),
+            body: Expr::Prim(5, vec![Expr::Prim(6, vec![Expr::Prim(6, vec![v("ALL")])])]), inline: false },
+        Helper::Defun { name: "atmore".into(), pat: Pat::Cons(Box::new(pv("MA")), Box::new(Pat::At("MORE".into(), Box::new(Pat::list(vec![pv("MB")], Pat::Nil))))),
+            body: Expr::Prim(5, vec![Expr::Prim(6, vec![v("MORE")])]), inline: false },
         Helper::Defun { name: "capf".into(), pat: Pat::list(vec![pv("CK"), pv("CV"), pv("CY")], Pat::Nil),
             body: Expr::Apply(Box::new(Expr::Lambda(vec!["CK".into(), "CV".into()], Pat::list(vec![pv("CZ")], Pat::Nil), Box::new(Expr::List(vec![v("CK"), v("CV"), v("CZ")])))), Box::new(Expr::List(vec![v("CY")]))), inline: false },
     ];
@@ -143,7 +151,7 @@ pub fn use_ladder(lower: bool) -> Vec<(Program, Vec<V>)> {
             let mut ctr = 0;
             let inner = wrap(a, v(p2), &mut ctr);
             let e = if b == nwrap { inner } else { wrap(b, inner, &mut ctr) };
-            let uses_helpers = [a, b].iter().any(|k| matches!(*k, 3 | 4 | 10 | 12 | 13 | 15));
+            let uses_helpers = [a, b].iter().any(|k| matches!(*k, 3 | 4 | 10 | 12 | 13 | 15 | 16 | 17));
             out.push((Program { args: args.clone(), helpers: if uses_helpers { helpers.clone() } else { vec![] }, body: Expr::Prim(4, vec![v(p1), e]) }, envs.clone()));
         }
     }
@@ -187,7 +195,7 @@ pub fn use_ladder(lower: bool) -> Vec<(Program, Vec<V>)> {
             let inner = |x: Expr| wrap(b, x, &mut ctr2.clone());
             let e = bind_around(a, v(p2), &inner, &mut ctr);
             ctr2 += 1;
-            let uses_helpers = matches!(b, 3 | 4 | 10 | 12 | 13 | 15);
+            let uses_helpers = matches!(b, 3 | 4 | 10 | 12 | 13 | 15 | 16 | 17);
             out.push((Program { args: args.clone(), helpers: if uses_helpers { helpers.clone() } else { vec![] }, body: Expr::Prim(4, vec![v(p1), e]) }, envs.clone()));
         }
     }
@@ -220,6 +228,49 @@ pub fn rest_and_assign_ladders() -> Vec<(Program, Vec<V>)> {
                     let qlong = V::list(&(0..missing + 2).map(|i| V::int(4000 + i as i64)).collect::<Vec<_>>());
                     out.push((p, vec![V::list(&[V::int(10), qlist]), V::list(&[V::int(20), qlong])]));
                 }
+            }
+        }
+    }
+    // a repeated subexpression around a call with a &rest tail: in a positional argument and outside the call, in the
+    // tail and outside, in both (the cl23+ CSE pass rebuilds the call)
+    {
+        let sq = || Expr::Prim(18, vec![v("A"), v("A")]);
+        let gtail = Helper::Defun { name: "gtail".into(), pat: Pat::Cons(Box::new(pv("X")), Box::new(pv("Y"))), body: Expr::Prim(4, vec![v("X"), v("Y")]), inline: false };
+        let calls: Vec<Expr> = vec![
+            Expr::Prim(4, vec![sq(), Expr::Call("gtail".into(), vec![sq()], Some(Box::new(v("R"))))]),
+            Expr::Prim(4, vec![sq(), Expr::Call("gtail".into(), vec![v("A")], Some(Box::new(Expr::List(vec![sq(), v("R")]))))]),
+            Expr::Prim(4, vec![sq(), Expr::Call("gtail".into(), vec![sq()], Some(Box::new(Expr::List(vec![sq(), v("R")]))))]),
+            Expr::Call("gtail".into(), vec![sq(), sq()], Some(Box::new(v("R")))),
+            Expr::Prim(4, vec![sq(), Expr::Call("gtail".into(), vec![sq(), v("A")], Some(Box::new(v("R"))))]),
+        ];
+        for body in calls {
+            for inline in [false, true] {
+                let f = Helper::Defun { name: "crf".into(), pat: Pat::list(vec![pv("A"), pv("R")], Pat::Nil), body: body.clone(), inline };
+                let p = Program { args: Pat::list(vec![pv("P"), pv("Q")], Pat::Nil), helpers: vec![gtail.clone(), f], body: Expr::Call("crf".into(), vec![v("P"), v("Q")], None) };
+                out.push((p, vec![V::list(&[V::int(100), V::list(&[V::int(500), V::int(700)])]), V::list(&[V::int(3), V::nil()])]));
+            }
+        }
+    }
+    // calls whose positional arguments and &rest tail are all constants (the cl23+ optimiser evaluates such calls at
+    // compile time), next to a parameter so that the program still depends on its input
+    {
+        let lit = |n: i64| Expr::Lit(V::int(n));
+        let qlist = |xs: &[i64]| Expr::Lit(V::list(&xs.iter().map(|x| V::int(*x)).collect::<Vec<_>>()));
+        let body = Expr::Prim(16, vec![v("A"), Expr::Prim(18, vec![lit(10), v("B")]), Expr::Prim(18, vec![lit(100), v("C")]), Expr::Prim(18, vec![lit(1000), v("D")])]);
+        let calls: Vec<(Vec<Expr>, Expr)> = vec![
+            (vec![lit(1), lit(2)], qlist(&[3, 4])),
+            (vec![], qlist(&[1, 2, 3, 4])),
+            (vec![lit(1)], Expr::List(vec![lit(2), lit(3), lit(4)])),
+            (vec![lit(1), lit(2), lit(3)], qlist(&[4])),
+            (vec![lit(1), lit(2), lit(3), lit(4)], qlist(&[5])),
+            (vec![lit(1), lit(2)], Expr::Prim(4, vec![lit(3), qlist(&[4])])),
+        ];
+        for (pos, rest) in calls {
+            for inline in [false, true] {
+                let f = Helper::Defun { name: "sum4".into(), pat: Pat::list(vec![pv("A"), pv("B"), pv("C"), pv("D")], Pat::Nil), body: body.clone(), inline };
+                let p = Program { args: Pat::list(vec![pv("P"), pv("Q")], Pat::Nil), helpers: vec![f],
+                    body: Expr::Prim(16, vec![v("P"), Expr::Call("sum4".into(), pos.clone(), Some(Box::new(rest.clone())))]) };
+                out.push((p, vec![V::list(&[V::int(10), V::int(0)]), V::list(&[V::int(0), V::int(1)])]));
             }
         }
     }
